@@ -14,7 +14,7 @@ Fixpoint fact_answers (fs : list fact) (args : list term) (s : st) : list st * b
   | [] => ([], false, nxt s)
   | (m, vals) :: r =>
       let s1 := {| sto := sto s; nxt := nxt s + m |} in
-      match unify_arrays_fast ufuel (sto s) args (map (shift_term (nxt s)) vals) with
+      match unify_arrays_fast ufuel (sto s) args (map (fact_shift (nxt s)) vals) with
       | UOk s' => let '(ys, e, nx) := fact_answers r args s1 in ({| sto := s'; nxt := nxt s + m |} :: ys, e, nx)
       | UFail => fact_answers r args s1
       | _ => ([], true, nxt s + m)
